@@ -5,8 +5,14 @@ package main
 //
 // op line:  C04 MSMX <curve> <g1|g2> <aff|jac> <tower> <p> <a> <b> <r> <Gx> <Gy> <seed> <n> <c> <nbTasks> <gomaxprocs> <numCPU> <tail> <wlo> <whi> <prog>
 //
-// prog = comma separated items  <body>[#j][@m | ^k][*rep]   (all numbers hex)
+// <aff|jac> = MultiExp of the affine / Jacobian receiver; `inner` = _innerMsmG1 / _innerMsmG2 run with the window <c> of the
+// line through the verif-tagged overlay shim (the body of MultiExp below the choice of the window): a few hundred
+// scripted points reach the batch-affine processor of every window, see c04Queue.
+//
+// prog = comma separated items  <body>[~][#j][@m | ^k][*rep]   (all numbers hex)
 //   body  w | lo:hi       window value, or the sweep lo..hi (inclusive, descending when lo > hi)
+//   ~                     the signed digit is −w (the processor SUBTRACTS the point from bucket w): the scalar is
+//                         2^(c·whi) − w·Σ 2^(c·k) resp. (with #j) 2^(c·(j+1)) − w·2^(c·j): digit +1 in the window above
 //   #j                    only window j carries the value (default: every window of [wlo, whi): the scalar is w·Σ 2^(c·k))
 //   @m                    the point is [m·a0]G, m signed (default: the pairwise distinct point [a0 + i·d]G, i = position)
 //   ^k                    the point is −[a0 + (i−k)·d]G: the opposite of the point k positions earlier
@@ -36,6 +42,7 @@ type c04XEntry struct {
 	win  int      // -1: all windows of [wlo, whi)
 	m    *big.Int // nil: generic point
 	back int      // -1: none
+	neg  bool     // digit −w
 }
 
 func c04SplitSuffix(s string, ch string) (string, string, bool) {
@@ -69,6 +76,9 @@ func c04ParseProg(prog string) []c04XEntry {
 		}
 		if b, x, ok := c04SplitSuffix(it, "#"); ok {
 			it, e.win = b, c04ParseInt(x)
+		}
+		if strings.HasSuffix(it, "~") {
+			it, e.neg = strings.TrimSuffix(it, "~"), true
 		}
 		var ws []int
 		if lo, hi, ok := c04SplitSuffix(it, ":"); ok {
@@ -116,7 +126,7 @@ func c04MkInputX(r *big.Int, seed uint64, n, c, tail, wlo, whi int, prog string)
 		A: make([]*big.Int, n), S: make([]*big.Int, n), nbase: 1}
 	one := new(big.Int).Mod(big.NewInt(1), r)
 	zero := new(big.Int)
-	scal := map[[2]int]*big.Int{}
+	scal := map[[3]int]*big.Int{}
 	for i := 0; i < n; i++ {
 		var e *c04XEntry
 		if L > 0 {
@@ -153,13 +163,21 @@ func c04MkInputX(r *big.Int, seed uint64, n, c, tail, wlo, whi int, prog string)
 				in.nbase = idx + 1
 			}
 		}
-		key := [2]int{e.w, e.win}
+		key := [3]int{e.w, e.win, 0}
+		if e.neg {
+			key[2] = 1
+		}
 		s, ok := scal[key]
 		if !ok {
+			top := whi
 			if e.win >= 0 {
 				s = new(big.Int).Lsh(big.NewInt(int64(e.w)), uint(c*e.win))
+				top = e.win + 1
 			} else {
 				s = new(big.Int).Mul(big.NewInt(int64(e.w)), rep)
+			}
+			if e.neg {
+				s.Sub(new(big.Int).Lsh(big.NewInt(1), uint(c*top)), s)
 			}
 			s.Mod(s, r)
 			scal[key] = s
@@ -197,13 +215,17 @@ func c04ExecX(a []string) string {
 		return "bad-op"
 	}
 	g, ok := c04Groups[a[1]+"/"+a[2]]
-	if !ok || (a[3] != "aff" && a[3] != "jac") {
+	if !ok || (a[3] != "aff" && a[3] != "jac" && a[3] != "inner") {
 		return "bad-op"
 	}
 	seed, _ := strconv.ParseUint(a[11], 16, 64)
 	n := c04ParseInt(a[12])
 	in := c04MkInputX(g.r, seed, n, c04ParseInt(a[13]), c04ParseInt(a[17]), c04ParseInt(a[18]), c04ParseInt(a[19]), a[20])
-	return c04Guarded(g, a[3], in, n, c04ParseInt(a[14]), c04ParseInt(a[15]))
+	api := a[3]
+	if api == "inner" {
+		api = "inner:" + a[13]
+	}
+	return c04Guarded(g, api, in, n, c04ParseInt(a[14]), c04ParseInt(a[15]))
 }
 
 // ---------------------------------------------------------------- process isolation
